@@ -160,19 +160,13 @@ Definition match_vartype (x : str) : option (str * str) :=
   | None => None
   end.
 
-(* DOUBLE_PREC_RE / DOUBLE_CMPLX_RE on the lower-cased match: at least one white space *)
+(* DOUBLE_PREC_RE / DOUBLE_CMPLX_RE on the lower-cased match: any amount of white space *)
 Definition normalise_double (vt : str) : str :=
   match match_ci (s "double") vt with
   | Some r =>
-    match r with
-    | c :: _ =>
-      if is_space c then
-        if seqb (skip_ws r) (s "precision") then s "double precision"
-        else if seqb (skip_ws r) (s "complex") then s "double complex"
-        else vt
-      else vt
-    | [] => vt
-    end
+    if seqb (skip_ws r) (s "precision") then s "double precision"
+    else if seqb (skip_ws r) (s "complex") then s "double complex"
+    else vt
   | None => vt
   end.
 
@@ -208,49 +202,29 @@ Fixpoint varkind_search (x : str) : varkind :=
     else varkind_search r
   end.
 
-(* KIND_RE.match: "kind", "=", then everything up to a comma or white space (not empty) *)
-Definition kind_re (x : str) : option str :=
-  match match_ci (s "kind") x with
+(* KIND_RE.match: "kind", "=", then the whole expression *)
+(* what "\s*(.+)" leaves as the group: the text after the white space; when only white space is
+   left, its last character *)
+Definition rest_group (r : str) : option str :=
+  match skip_ws r with
+  | _ :: _ => Some (skip_ws r)
+  | [] => match r with [] => None | _ => Some [last r c_sp] end
+  end.
+
+Definition key_eq_rest (key x : str) : option str :=
+  match match_ci key x with
   | Some r =>
     match skip_ws r with
-    | c :: r2 =>
-      if Ascii.eqb c c_eq then
-        match take_while (fun d => negb (Ascii.eqb d c_comma) && negb (is_space d)) (skip_ws r2) with
-        | ((_ :: _) as k, _) => Some k
-        | ([], _) => None
-        end
-      else None
+    | c :: r2 => if Ascii.eqb c c_eq then rest_group r2 else None
     | [] => None
     end
   | None => None
   end.
 
-(* LEN_RE.match: "len", "=", then a word, "*" or ":" (group 1); or leading digits (group 2) *)
-Definition len_re (x : str) : option str :=
-  let named :=
-    match match_ci (s "len") x with
-    | Some r =>
-      match skip_ws r with
-      | c :: r2 =>
-        if Ascii.eqb c c_eq then
-          match take_while is_word (skip_ws r2) with
-          | ((_ :: _) as w, _) => Some w
-          | ([], _) =>
-            match skip_ws r2 with
-            | d :: _ => if Ascii.eqb d c_star then Some [c_star]
-                        else if Ascii.eqb d c_colon then Some [c_colon] else None
-            | [] => None
-            end
-          end
-        else None
-      | [] => None
-      end
-    | None => None
-    end in
-  match named with
-  | Some v => Some v
-  | None => match take_while is_digit x with ((_ :: _) as ds, _) => Some ds | ([], _) => None end
-  end.
+Definition kind_re (x : str) : option str := key_eq_rest (s "kind") x.
+
+(* LEN_RE.match: "len", "=", then the whole expression *)
+Definition len_re (x : str) : option str := key_eq_rest (s "len") x.
 
 (* PROTO_RE.match: "*" or a word, optionally followed by a parenthesised group up to the last ")"
    -> [group 1, group 2 or ""] *)
@@ -332,8 +306,20 @@ Definition kind_args (vk : varkind) : bool * str :=
   end.
 
 (* parse_type after the type word: [after] is the text that follows it *)
+(* STAR_SPACE_RE.sub: blanks after a leading "*" are dropped *)
+Definition star_space (rest : str) : str :=
+  match rest with
+  | c :: r => if Ascii.eqb c c_star
+              then match r with
+                   | d :: _ => if is_space d then c :: skip_ws r else rest
+                   | [] => rest
+                   end
+              else rest
+  | [] => rest
+  end.
+
 Definition after_type (vartype after : str) : res ptype :=
-  let rest := strip after in
+  let rest := star_space (strip after) in
   match get_parens rest with
   | None => Err (s "RuntimeError")
   | Some kindstr =>
@@ -568,7 +554,7 @@ Definition attrib_words : list str :=
   [s "asynchronous"; s "allocatable"; s "data"; s "dimension"; s "external"; s "optional"; s "parameter";
    s "pointer"; s "private"; s "protected"; s "public"; s "save"; s "target"; s "value"; s "volatile"].
 
-(* "intent", "(", one word, ")" with optional white space *)
+(* "intent", "(", one word or two words separated by white space, ")" *)
 Definition match_intent (x : str) : option str :=
   match match_ci (s "intent") x with
   | Some r =>
@@ -577,7 +563,18 @@ Definition match_intent (x : str) : option str :=
       if Ascii.eqb c c_lpar then
         match take_while is_word (skip_ws r2) with
         | (_ :: _, r3) =>
-          match skip_ws r3 with
+          (* optionally a second word after white space: INTENT(IN OUT) *)
+          let r3' := match r3 with
+                     | b :: _ =>
+                       if is_space b then
+                         match take_while is_word (skip_ws r3) with
+                         | (_ :: _, r5) => r5
+                         | ([], _) => r3
+                         end
+                       else r3
+                     | [] => r3
+                     end in
+          match skip_ws r3' with
           | d :: r4 => if Ascii.eqb d c_rpar then Some r4 else None
           | [] => None
           end
@@ -660,7 +657,7 @@ Fixpoint pdict_get (k : str) (d : list (str * str)) : option str :=
 Record attr_state := mkas { as_attr : dict; as_param : list (str * str) }.
 
 (* the ATTRIB_RE branch of the statement loop, for a unit that has attr_dict *)
-Definition record_attribute (st : attr_state) (g1 g2 : str) : res attr_state :=
+Definition record_attribute (st : attr_state) (lits : list str) (g1 g2 : str) : res attr_state :=
   let attr := remove_blanks (lower g1) in
   if seqb attr (s "data") then Ok st
   else if one_of attr [s "dimension"; s "allocatable"; s "pointer"] then
@@ -681,7 +678,9 @@ Definition record_attribute (st : attr_state) (g1 g2 : str) : res attr_state :=
         match paren_split c_eq name with
         | n :: v :: _ =>
           let n := lower (strip n) in
-          Ok (mkas (dict_append n attr (as_attr st)) (pdict_set n v (as_param st)))
+          (* format_initial_value: like an initialisation on the declaration *)
+          do v' <- restore (comma_space (remove_blanks v)) lits;
+          Ok (mkas (dict_append n attr (as_attr st)) (pdict_set n v' (as_param st)))
         | _ => Err (s "IndexError")
         end
       else Ok (mkas (dict_append (lower (strip name)) attr (as_attr st)) (as_param st)) in
@@ -724,6 +723,9 @@ Definition apply_attr (params : list (str * str)) (r : res var) (attr : str) : r
     Ok (mkvar (v_name v) (v_vartype v) (v_kind v) (v_strlen v) (v_proto v) (v_attribs v)
               (removelast (skipn 7 attr)) (v_optional v) (v_permission v) (v_parameter v) (v_points v)
               (v_initial v) (v_dimension v))
+  else if seqb attr (s "optional") then
+    Ok (mkvar (v_name v) (v_vartype v) (v_kind v) (v_strlen v) (v_proto v) (v_attribs v) (v_intent v)
+              true (v_permission v) (v_parameter v) (v_points v) (v_initial v) (v_dimension v))
   else if dim_re attr && (contains (s "pointer") attr || contains (s "allocatable") attr) then
     match find_ch c_lpar attr with
     | Some i =>
@@ -735,8 +737,8 @@ Definition apply_attr (params : list (str * str)) (r : res var) (attr : str) : r
   else if seqb attr (s "parameter") then
     match pdict_get (lower (v_name v)) params with
     | Some init =>
-      Ok (mkvar (v_name v) (v_vartype v) (v_kind v) (v_strlen v) (v_proto v) (v_attribs v ++ [attr])
-                (v_intent v) (v_optional v) (v_permission v) (v_parameter v) (v_points v) (Some init)
+      Ok (mkvar (v_name v) (v_vartype v) (v_kind v) (v_strlen v) (v_proto v) (v_attribs v)
+                (v_intent v) (v_optional v) (v_permission v) true (v_points v) (Some init)
                 (v_dimension v))
     | None => Err (s "KeyError")
     end
@@ -767,25 +769,41 @@ Definition process_attribs (st : attr_state) (vars : list var) : res (list var) 
 Definition proc_keywords : list str :=
   [s "impure"; s "pure"; s "elemental"; s "non_recursive"; s "recursive"; s "module"].
 
-(* re.sub(word, "", text): all non-overlapping occurrences *)
-Fixpoint remove_all_fuel (fuel : nat) (w x : str) : str :=
+(* re.sub(r"\bword\b", "", text, flags=IGNORECASE): every occurrence of the keyword as a whole word,
+   in any letter case, is deleted; the flag says whether there was one *)
+Fixpoint remove_word_fuel (fuel : nat) (w x : str) (prev_word : bool) : bool * str :=
   match fuel with
-  | O => x
+  | O => (false, x)
   | S f =>
     match x with
-    | [] => []
-    | c :: r => if prefix w x then remove_all_fuel f w (skipn (length w) x) else c :: remove_all_fuel f w r
+    | [] => (false, [])
+    | c :: r =>
+      let hit := if prev_word then None
+                 else match match_ci w x with
+                      | Some rest => match rest with
+                                     | d :: _ => if is_word d then None else Some rest
+                                     | [] => Some rest
+                                     end
+                      | None => None
+                      end in
+      match hit with
+      | Some rest =>
+        (* the keyword ends with a word character *)
+        let (_, y) := remove_word_fuel f w rest true in (true, y)
+      | None => let (b, y) := remove_word_fuel f w r (is_word c) in (b, c :: y)
+      end
     end
   end.
-Definition remove_all (w x : str) : str := remove_all_fuel (S (length x)) w x.
+Definition remove_word (w x : str) : bool * str := remove_word_fuel (S (length x)) w x false.
 
-(* _list_of_procedure_attributes: keywords found anywhere in the lower-cased text *)
+(* _list_of_procedure_attributes: the prefix keywords, in this order, taken out of the text *)
 Definition procedure_attributes (attrs : option str) : list str * str :=
   match attrs with
   | None | Some [] => ([], [])
   | Some a =>
-    let r := fold_left (fun acc w => if contains w (snd acc) then (fst acc ++ [w], remove_all w (snd acc)) else acc)
-                       proc_keywords ([], lower a) in
+    let r := fold_left (fun acc w => let (found, rest) := remove_word w (snd acc) in
+                                     if found then (fst acc ++ [w], rest) else acc)
+                       proc_keywords ([], a) in
     (fst r, remove_blanks (snd r))
   end.
 
@@ -869,7 +887,7 @@ Fixpoint body_go (lines : list str) (st : attr_state) (vars : list var) (permiss
     let (m, lits) := mask_line raw in
     do a <- attrib_re m;
     match a with
-    | Some (g1, g2) => do st' <- record_attribute st g1 g2; body_go lines' st' vars permission
+    | Some (g1, g2) => do st' <- record_attribute st lits g1 g2; body_go lines' st' vars permission
     | None =>
       if type_statement_like m then Unmodelled (s "TYPE statement (TYPE_RE precedes VARIABLE_RE)")
       else if is_declaration m then
@@ -906,15 +924,18 @@ Definition unit_model (h : header) (body : list str) : res unit_out :=
     let (avs, locals) := match_args (split_args (h_arguments h)) (filter (fun v => negb (has_external v)) vars') in
     Ok (mkuo pattrs avs None locals)
   | UFunction =>
-    (* the result variable leaves the locals before the attribute statements are applied *)
-    let (ret, vars1) := match typed with
-                        | Some v => (v, vars)
-                        | None => match take_var retname vars with
-                                  | Some (v, rest) => (v, rest)
-                                  | None => (implicit_var retname, vars)
-                                  end
-                        end in
+    (* a result variable typed in the function statement joins the locals, so that attribute
+       statements reach it; after the arguments have been taken out, the result variable is the
+       local of that name, or an implicitly typed one *)
+    let (vars1, rname) := match typed with
+                          | Some v => (vars ++ [v], v_name v)
+                          | None => (vars, retname)
+                          end in
     do vars' <- process_attribs st vars1;
-    let (avs, locals) := match_args (split_args (h_arguments h)) (filter (fun v => negb (has_external v)) vars') in
+    let (avs, locals0) := match_args (split_args (h_arguments h)) (filter (fun v => negb (has_external v)) vars') in
+    let (ret, locals) := match take_var rname locals0 with
+                         | Some (v, rest) => (v, rest)
+                         | None => (implicit_var rname, locals0)
+                         end in
     Ok (mkuo pattrs avs (Some ret) locals)
   end.
